@@ -490,6 +490,12 @@ def gen_source(rng, header, col_kinds, odd):
     elif r < 0.94:
         s += nl + nl
     # else: no final newline (a header-only source without one cannot be parsed: EmptyTest)
+    if header and rng.random() < 0.08 * (1 + 2 * odd):
+        # a test that is broken at its very end, followed by blank space: the error is located at / near the end of
+        # the source, and load_test must attach a source text that contains that location
+        s = s.rstrip("\r\n") + nl + rng.choice(["loop(i,2)" + nl + " ".join(["1"] * len(header)), "while(1)", "let q = ", "let q = (1 +",
+                                                 " ".join(["1"] * (len(header) + 2)), "loop(i,2)", "bits(70,1)", "1 $"]) + \
+            rng.choice(["", " ", "   ", nl + "  ", nl + nl + " \t", " " + nl + " ", "\t\t" + nl])
     return s
 
 
